@@ -37,6 +37,7 @@ from dask_expr._expr import (
     RenameSeries,
     ResetIndex,
     ToFrame,
+    _convert_to_list,
     determine_column_projection,
     plain_column_projection,
 )
@@ -781,6 +782,19 @@ class Reduction(ApplyConcatApply):
 
     def _simplify_up(self, parent, dependents):
         if isinstance(parent, Projection):
+            if self.frame.ndim == 2 and self.ndim == 1:
+                # The result is indexed by the column labels: selecting labels
+                # narrows the frame, which has to stay a DataFrame
+                columns = _convert_to_list(
+                    determine_column_projection(self, parent, dependents)
+                )
+                columns = [col for col in self.frame.columns if col in columns]
+                if columns == self.frame.columns:
+                    return
+                result = type(self)(self.frame[columns], *self.operands[1:])
+                if columns == parent.operand("columns"):
+                    return result
+                return type(parent)(result, parent.operand("columns"))
             return plain_column_projection(self, parent, dependents)
 
 
